@@ -159,4 +159,15 @@ CHECKS["C16"] = {
             "checked for an arbitrary field by for-each lifting); the snapshot+log combination is covered up to "
             "collect() only (see C02).",
 }
+CHECKS["C18"] = {
+    "text": "BoundedAttributes.__setitem__ is proved against a whole-view specification over the (key order, map) view: "
+            "frozen -> TypeError and nothing changes; capacity 0 -> only the drop is counted; invalid value -> nothing "
+            "changes; existing key -> replaced and moved to the end without a drop; full -> the OLDEST entry is evicted "
+            "and the drop counted; every other key untouched; capacity never exceeded.  __delitem__, __init__ (filled "
+            "through the same operation, frozen last), merge_in, copy (a copy), the value-cleaning rule and "
+            "Resource.merge (other wins key by key, schema rule, neither operand modified) are proved likewise.",
+    "note": "OrderedDict is a trusted model (dict + key list with a representation invariant); sequence cleaning in "
+            "_clean_attribute, Resource.create / the environment detector and plugin resources in Deep.start are not "
+            "covered; bytes subclasses are not modelled.",
+}
 NOT_APPLICABLE = {}
